@@ -990,13 +990,33 @@ impl BytecodeVM {
         use crate::value::{ExoticObject, JsFunction};
 
         let CallParams {
-            callee,
-            this_value,
-            args,
+            mut callee,
+            mut this_value,
+            mut args,
             return_register,
             new_target,
             is_super_call,
         } = params;
+
+        // Unwrap bound functions down to their target. Iteratively: a chain of bind() calls
+        // can be arbitrarily long
+        loop {
+            let bound = match &callee {
+                JsValue::Object(obj) => match &obj.borrow().exotic {
+                    ExoticObject::Function(JsFunction::Bound(bound)) => Some(bound.clone()),
+                    _ => None,
+                },
+                _ => None,
+            };
+            let Some(bound) = bound else { break };
+            if !bound.bound_args.is_empty() {
+                let mut full_args = bound.bound_args.clone();
+                full_args.extend(args);
+                args = full_args;
+            }
+            this_value = bound.this_arg.clone();
+            callee = JsValue::Object(bound.target.cheap_clone());
+        }
 
         let JsValue::Object(func_obj) = &callee else {
             return Err(JsError::type_error("Not a function"));
@@ -1069,24 +1089,9 @@ impl BytecodeVM {
                 self.set_reg(return_register, result.value);
                 Ok(None)
             }
-            JsFunction::Bound(bound) => {
-                // Unwrap bound function and trampoline to target
-                let target = JsValue::Object(bound.target.cheap_clone());
-                let bound_this = bound.this_arg.clone();
-                let mut full_args = bound.bound_args.clone();
-                full_args.extend(args);
-                self.setup_trampoline_call(
-                    interp,
-                    CallParams {
-                        callee: target,
-                        this_value: bound_this,
-                        args: full_args,
-                        return_register,
-                        new_target,
-                        is_super_call,
-                    },
-                )
-            }
+            JsFunction::Bound(_) => Err(JsError::internal_error(
+                "bound function was not unwrapped before the call",
+            )),
             JsFunction::BytecodeGenerator(bc_func) => {
                 // Generators just create a generator object without running the body.
                 // The body runs when .next() is called. Handle directly without recursion.
@@ -1207,6 +1212,26 @@ impl BytecodeVM {
     ) -> Result<(), JsError> {
         use crate::value::{ExoticObject, JsFunction};
 
+        // Unwrap bound functions down to their target (iteratively, see setup_trampoline_call)
+        let mut callee = callee;
+        let mut args = args;
+        loop {
+            let bound = match &callee {
+                JsValue::Object(obj) => match &obj.borrow().exotic {
+                    ExoticObject::Function(JsFunction::Bound(bound)) => Some(bound.clone()),
+                    _ => None,
+                },
+                _ => None,
+            };
+            let Some(bound) = bound else { break };
+            if !bound.bound_args.is_empty() {
+                let mut full_args = bound.bound_args.clone();
+                full_args.extend(args);
+                args = full_args;
+            }
+            callee = JsValue::Object(bound.target.cheap_clone());
+        }
+
         let JsValue::Object(func_obj) = &callee else {
             return Err(JsError::type_error("Not a constructor"));
         };
@@ -1234,21 +1259,9 @@ impl BytecodeVM {
                 )?;
                 Ok(())
             }
-            JsFunction::Bound(bound) => {
-                // Unwrap bound function and trampoline to target
-                let target = JsValue::Object(bound.target.cheap_clone());
-                let mut full_args = bound.bound_args.clone();
-                full_args.extend(args);
-                self.setup_trampoline_construct(
-                    interp,
-                    target,
-                    this_value,
-                    full_args,
-                    return_register,
-                    new_target,
-                    new_obj,
-                )
-            }
+            JsFunction::Bound(_) => Err(JsError::internal_error(
+                "bound function was not unwrapped before the construct call",
+            )),
             // For all other function types, fall back to the interpreter's call_function
             // and handle the object/non-object return value
             _ => {
